@@ -47,6 +47,18 @@ CHECKS["C01"] = dict(
          "exhaustive part bounded to chains of 2 (quick) / 3 (thorough) operations from 3 seeds.",
     technique="TLA+ spec (Mesh) model-checked by TLC + TLC validation (MeshTrace) of every transition executed by the real remeshing code")
 
+CHECKS["C11"] = dict(
+    category="model_checking", design_ref="DESIGN.md §C11",
+    text="Design: TLC checks on spec/Mesh, over every chain of operations, the action properties SplitKeepsLabels (children inherit the "
+         "parent's face type, nothing else is relabelled) and OnlyRemeshChanges. Implementation: real refine_mesh passes on random meshes / "
+         "displacements / edge-length bands / swap settings are observed through hook H6 and every operation and pass record is validated by "
+         "TLC (MeshTrace with MeshTraceC11.cfg): momentum conserved, survivors not moved (bitwise), new node at the midpoint (bitwise), labels "
+         "inherited (evaluated by TLC from the two meshes), split only if longer than l_max / merge only if shorter than l_min, splits keep "
+         "volume and area, a pass on a conforming mesh changes nothing, iteration count and failure exception consistent, plus all C01 predicates.",
+    note="Numeric facts are evaluated by the driver with independent formulas and logged as booleans (TLC has no reals); termination is "
+         "observed (time limit), not proved; the irrational swap trigger is not predicted, only its effect is validated.",
+    technique="TLC action properties on spec/Mesh + TLC trace validation of hooked real refine_mesh passes")
+
 PENDING = {}   # property id -> reason (filled below for everything not in CHECKS)
 NOT_APPLICABLE = {
  "C10": "memory safety / undefined behaviour has no representation in a TLA+ state (no addresses, lifetimes or indeterminate values); "
